@@ -61,6 +61,9 @@ func runC20(c *runCfg) error {
 		id++
 	}
 	if c.replay != "" {
+		if err := replaySessions(c); err != nil {
+			return err
+		}
 		f, err := os.Open(c.replay)
 		if err != nil {
 			return err
@@ -91,6 +94,29 @@ func runC20(c *runCfg) error {
 	}
 	for _, s := range hostileQueries() {
 		emit("hostile", []byte(s))
+	}
+	// "the length it reports is what a subsequent statement Describe announces": the statement is
+	// declared with exactly what the real ParseParameters returned for its query text, then
+	// prepared, described (statement and portal) and executed over the wire
+	{
+		qs := []string{"$1", "select $5", "select $2, $1", "? and ?", "$300", "$32767", "$32768", "$40000, $1", "$65534", "$65535", "$65536",
+			"select $99999999999999999999", strings.Repeat("?,", 33000), strings.Repeat("?", 70000)}
+		if c.tier == "thorough" {
+			for _, n := range []int{127, 128, 255, 256, 32766, 49152, 65533} {
+				qs = append(qs, fmt.Sprintf("select $%d", n), strings.Repeat("? ", n))
+			}
+		}
+		for i, q := range qs {
+			n, _, _ := ppObserve([]byte(q))
+			if n < 0 {
+				n = 0
+			}
+			st := stmtT{id: 1, cols: textCols(1), poids: make([]int, n), prog: []opT{{kind: "row", vals: []valT{tv("r")}}, {kind: "complete", tag: []byte("SELECT 1")}}, ret: "nil"}
+			cfg := cfgT{limit: 0, auth: "none", term: "none", parse: []parseEntry{{query: []byte(q), stmts: []stmtT{st}}}}
+			msgs := [][]byte{mParse([]byte("s"), []byte(q), 0), mDescribe('S', []byte("s")), mSync(),
+				mParse(nil, []byte(q), 0), mDescribe('S', nil), mBind(nil, nil, nil, nil, nil), mDescribe('P', nil), mExecute(nil, 0), mSync()}
+			emitSession(c, lockCase(800000+i, "describe", cfg, stdStartup, msgs))
+		}
 	}
 	// exhaustive: all strings of length <= L over a 6 letter alphabet
 	alpha := []byte("$?019a")
